@@ -366,8 +366,15 @@ impl<'buf> ModuleReader<'buf> {
             if header.p_type != elf::program_header::PT_NOTE {
                 continue;
             }
+            // A module in process memory has its segments at their virtual addresses, which need
+            // not equal their file offsets.
+            let offset = if self.module_memory.is_process_memory() {
+                self.module_memory.absolute(header.p_vaddr)
+            } else {
+                header.p_offset
+            };
             if let Ok(Some(result)) =
-                self.find_build_id_note(header.p_offset, header.p_filesz, header.p_align)
+                self.find_build_id_note(offset, header.p_filesz, header.p_align)
             {
                 return Ok(result);
             }
